@@ -35,6 +35,23 @@ Definition trim (s : bytes) : bytes := rev (dropWS (rev (dropWS s))).
 
 Definition parseContentLength (b : bytes) : option Z := pres_opt (ParseUint 64 b).
 
+(* hasHeaderValue(s, value): headerValueScanner.next cuts s at ',' (a trailing empty element after a final comma is not
+   visited), stripSpace removes outer spaces, caseInsensitiveCompare against value *)
+Definition stripSpace (b : bytes) : bytes := trimSpaces b.
+Fixpoint hhv_loop (fuel : nat) (b value : bytes) : bool :=
+  match fuel with
+  | O => false
+  | S f =>
+      match b with
+      | [] => false
+      | _ =>
+          let '(before, after) := split_at 44 b in
+          if caseInsensitiveCompare (stripSpace before) value then true
+          else match after with Some r => hhv_loop f r value | None => false end
+      end
+  end.
+Definition hasHeaderValue (s value : bytes) : bool := hhv_loop (length s) s value.
+
 (* ---------- the embedded `header` struct ---------- *)
 Record hdr := mkHdr {
   hh : kvs; hcookies : kvs; hclb : bytes (* contentLengthBytes *); hct : bytes (* contentType *);
@@ -181,12 +198,13 @@ Definition RsetSpecialHeader (r : resp) (key value : bytes) : option resp :=
         if ci strContentType key then Some (RSetContentTypeBytes r value)
         else if ci strContentLength key then
           match parseContentLength value with
-          | Some n => Some (with_rh r (with_hclb (with_hcl (rh r) n) value))
+          | Some n => (* a length replaces an earlier SetContentLength(-1): Transfer-Encoding is dropped *)
+              Some (with_rh r (with_hh (with_hclb (with_hcl (rh r) n) value) (delAllArgsStable (hh (rh r)) strTransferEncoding)))
           | None => Some r
           end
         else if ci strContentEncoding key then Some (RSetContentEncodingBytes r value)
         else if ci strConnection key then
-          if beq strClose value then
+          if hasHeaderValue value strClose then
             (* SetConnectionClose, then "Connection can only be set once: drop an earlier value" *)
             Some (with_rh r (with_hh (hSetConnectionClose (rh r)) (delAllArgsStable (hh (rh r)) key)))
           else Some (with_rh r (hsetNonSpecial (hResetConnectionClose (rh r)) key value))
@@ -410,11 +428,12 @@ Definition QsetSpecialHeader (q : req) (key value : bytes) : option req :=
         if ci strContentType key then Some (QSetContentTypeBytes q value)
         else if ci strContentLength key then
           match parseContentLength value with
-          | Some n => Some (with_qh q (with_hclb (with_hcl (qh q) n) value))
+          | Some n =>
+              Some (with_qh q (with_hh (with_hclb (with_hcl (qh q) n) value) (delAllArgsStable (hh (qh q)) strTransferEncoding)))
           | None => Some q
           end
         else if ci strConnection key then
-          if beq strClose value then
+          if hasHeaderValue value strClose then
             Some (with_qh q (with_hh (hSetConnectionClose (qh q)) (delAllArgsStable (hh (qh q)) key)))
           else Some (with_qh q (hsetNonSpecial (hResetConnectionClose (qh q)) key value))
         else if ci strCookie key then
